@@ -5,7 +5,7 @@ package header
 // Contracts for gcv (comment-only file; compiled only with -tags verif, and then to nothing).
 
 //@ stable injector.* injectorFunc.*
-//@ nonnil injectorFunc.injectFunc
+//@ nonnil injectorFunc.injectFunc injector.valueInjectors
 
 // ------------------------------------------------------------------ C07: what an injector may put into a header map
 // Each claim injector touches only the configured header name and only adds values taken from the session's claim.
@@ -50,7 +50,6 @@ package header
 //@ func (injector).Inject
 //@ safety
 //@ prop C07
-//@ requires[config:constructor-appends-only-non-nil-injectors] forall k int :: 0 <= k && k < len(i.valueInjectors) ==> i.valueInjectors[k] != nil
 //@ at call inject assert[each-value-injector-on-this-header-and-session] arg(inject, 0) == header && arg(inject, 1) == session
 //@     && recv(inject) == i.valueInjectors[rangeindex + 1]
 
@@ -64,7 +63,42 @@ package header
 //@ modifies a0.hdr
 
 //@ func newInjectorFunc
+//@ nomod
+//@ fresh
 //@ prop C19 C07
 //@ ensures[nonnil:injector-wraps-the-given-function] result != nil && typeis(result, "*injectorFunc") && as(result, "*injectorFunc").injectFunc == injectFunc
 //@ prop C19
 //@ scan[nonnil:injector-funcs-allocated-by-the-constructor] alloc-of pkg/header.injectorFunc pkg/header.newInjectorFunc
+
+// ------------------------------------------------------------------ C19 / C07: `nonnil injector.valueInjectors` (no nil element) is established by the
+// constructor — every value injector it appends was built without error — and nothing else allocates an injector or touches the slice
+//@ func NewInjector
+//@ safety
+//@ prop C19 C07
+//@ loop 0 invariant[only-built-injectors-so-far] rangeindex >= -1 && forall k int :: 0 <= k && k < len(injectors) ==> injectors[k] != nil
+//@ loop 1 invariant[only-built-injectors-so-far] rangeindex >= -1 && forall k int :: 0 <= k && k < len(injectors) ==> injectors[k] != nil
+//@ ensures[nonnil:every-value-injector-was-built] ret1 == nil ==> typeis(ret0, "*injector")
+//@     && forall k int :: 0 <= k && k < len(as(ret0, "*injector").valueInjectors) ==> as(ret0, "*injector").valueInjectors[k] != nil
+//@ ensures[a-value-that-cannot-be-built-is-an-error] called(newValueinjector) && ret1(newValueinjector) != nil ==> ret1 != nil && ret0 == nil
+
+//@ func newValueinjector
+//@ safety
+//@ nomod
+//@ prop C19 C07
+//@ ensures[an-injector-or-an-error] (ret1 == nil ==> ret0 != nil) && (ret1 != nil ==> ret0 == nil)
+//@ ensures[exactly-one-source-per-value] (value.SecretSource == nil) == (value.ClaimSource == nil) ==> ret1 != nil
+
+//@ func newSecretInjector
+//@ nomod
+//@ prop C19 C07
+//@ ensures[an-injector-or-an-error] (ret1 == nil ==> ret0 != nil) && (ret1 != nil ==> ret0 == nil)
+
+//@ func newClaimInjector
+//@ nomod
+//@ prop C19 C07
+//@ ensures[an-injector-or-an-error] (ret1 == nil ==> ret0 != nil) && (ret1 != nil ==> ret0 == nil)
+
+//@ prop C19
+//@ scan[nonnil:injectors-allocated-by-the-constructor] alloc-of pkg/header.injector pkg/header.NewInjector
+//@ scan[nonnil:value-injectors-frozen-after-construction] slice-field-frozen injector.valueInjectors pkg/header.NewInjector
+
